@@ -96,7 +96,7 @@ func c17HTTPPage(code int, body []byte, idField string) c17Page {
 
 func TestC17(t *testing.T) {
 	c := evid.New("C17")
-	c.Rule = "collections of 0-40 items, one in twelve of 101-230 items with page sizes {100,101,150,n-1,n,1000} (ids a random increasing sequence with gaps, some beyond 64 bits) x page size {1,2,3,n-1,n,n+1,100,absent} x order x optional filter (reference / one-key metadata / $not / $and with a nested $not / $or / $or of 20-90 alternatives), walked through three layers: L1 bunpaginate.UsingColumn / UsingOffset on a harness table, L2 ledgerstore.GetTransactions / GetLogs / GetAccountsWithVolumes, L3 the v2 and v1 HTTP list handlers with ?cursor=. Rows are served by the harness's mini SQL engine. Oracle: following next from the first page yields the filtered collection once, in order, every page but the last full, termination; previous of page i is page i-1 and the first page has none; every statement of the walk carries the filter of the first request (the token stands for the same query). Non-trivial = a walk of >=3 pages, or with a filter, or with a backward step; distinct by (layer, list, sizes, filter, ids)."
+	c.Rule = "collections of 0-40 items, one in twelve of 101-230 items with page sizes {100,101,150,n-1,n,1000} (ids a random increasing sequence with gaps, some beyond 64 bits) x page size {1,2,3,n-1,n,n+1,100,absent} x order x optional filter (reference / one-key metadata / $not / $and with a nested $not / $or / $or of 20-90 alternatives), walked through three layers: L1 bunpaginate.UsingColumn / UsingOffset on a harness table, L2 ledgerstore.GetTransactions / GetLogs / GetAccountsWithVolumes, L3 the v2 and v1 HTTP list handlers with ?cursor=. Rows are served by the harness's mini SQL engine. Oracle: following next from the first page yields the filtered collection once, in order, every page but the last full, termination; previous of page i is page i-1 and the first page has none; every statement of the walk carries the filter of the first request (the token stands for the same query). Non-trivial = a walk of >=3 pages, or with a filter, or with a backward step; distinct by (layer, list, sizes, filter, ids). Page sizes left to the server are written as an absent parameter or as an explicit pageSize=0."
 	c.Assumptions = []string{"PostgreSQL is replaced by a mini engine that evaluates WHERE conjuncts / ORDER BY / LIMIT / OFFSET of the narrow statement shapes bun emits here; unknown shapes abort the case as a harness error", "static collection (no concurrent inserts)"}
 	runProp(t, c, func(rt *rapid.T) {
 		if rapid.IntRange(0, 7).Draw(rt, "tokenFamily") == 0 {
@@ -379,6 +379,10 @@ func TestC17(t *testing.T) {
 			params := url.Values{}
 			if pageSize != 0 {
 				params.Set("pageSize", fmt.Sprint(pageSize))
+			} else if rapid.Bool().Draw(rt, "explicitZero") {
+				// "no page size" may also be written out: pageSize=0 is accepted like an absent parameter
+				// (a list cut into pages of nothing would never end)
+				params.Set("pageSize", "0")
 			}
 			switch layer {
 			case "L3-v2-transactions":
